@@ -40,7 +40,14 @@ func main() {
 	shim := flag.Bool("shim", true, "apply the scheduler shim rules")
 	iceseam := flag.Bool("iceseam", false, "apply the ICE connect seam")
 	only := flag.String("files", "", "comma separated file names to rewrite (default: all non-test files)")
+	selectRecv := flag.String("selectrecv", "", "comma separated file names in which a blocking select whose clauses are all plain receives (`case <-ch:`) is modelled by the scheduler (vsched.SelectRecv) instead of being left native")
 	flag.Parse()
+	selIn := map[string]bool{}
+	for _, f := range strings.Split(*selectRecv, ",") {
+		if f != "" {
+			selIn[f] = true
+		}
+	}
 	if *in == "" || *out == "" {
 		fmt.Fprintln(os.Stderr, "usage: vrewrite -in dir -out dir")
 		os.Exit(2)
@@ -88,7 +95,7 @@ func main() {
 			fmt.Fprintf(os.Stderr, "PARSE-ERROR %v\n", err)
 			os.Exit(2)
 		}
-		r := &rewriter{fset: fset, file: f, name: n}
+		r := &rewriter{fset: fset, file: f, name: n, selectRecv: selIn[n]}
 		changed := false
 		if *shim {
 			changed = r.shim() || changed
@@ -129,6 +136,7 @@ func main() {
 }
 
 type rewriter struct {
+	selectRecv bool // model blocking receive-only selects of this file
 	fset       *token.FileSet
 	file       *ast.File
 	name       string
@@ -254,6 +262,11 @@ func (r *rewriter) rewriteList(list *[]ast.Stmt) bool {
 			r.needVsched = true
 			(*list)[i] = &ast.ExprStmt{X: &ast.CallExpr{Fun: sel("vsched", "Send"), Args: []ast.Expr{st.Chan, st.Value}}}
 			changed = true
+		case *ast.SelectStmt:
+			if sw := r.rewriteSelect(st); sw != nil {
+				(*list)[i] = sw
+				changed = true
+			}
 		case *ast.LabeledStmt:
 			if g, ok := st.Stmt.(*ast.GoStmt); ok {
 				st.Stmt = r.rewriteGo(g)
@@ -263,6 +276,46 @@ func (r *rewriter) rewriteList(list *[]ast.Stmt) bool {
 	}
 
 	return changed
+}
+
+// rewriteSelect turns `select { case <-a: A; case <-b: B }` (no default, every clause a plain receive whose
+// value is dropped) into `switch vsched.SelectRecv(a, b) { case 0: A; case 1: B }`. Only in the files named by
+// -selectrecv: the channels have to be closed / written by rewritten code, or the model never sees them ready.
+func (r *rewriter) rewriteSelect(st *ast.SelectStmt) ast.Stmt {
+	if !r.selectRecv {
+		return nil
+	}
+	var chans []ast.Expr
+	var clauses []ast.Stmt
+	for i, c := range st.Body.List {
+		cc, ok := c.(*ast.CommClause)
+		if !ok || cc.Comm == nil {
+			return nil
+		}
+		es, ok := cc.Comm.(*ast.ExprStmt)
+		if !ok {
+			return nil
+		}
+		u, ok := es.X.(*ast.UnaryExpr)
+		if !ok || u.Op != token.ARROW {
+			return nil
+		}
+		chans = append(chans, u.X)
+		clauses = append(clauses, &ast.CaseClause{
+			List: []ast.Expr{&ast.BasicLit{Kind: token.INT, Value: fmt.Sprint(i)}},
+			Body: cc.Body,
+		})
+	}
+	if len(chans) == 0 {
+		return nil
+	}
+	r.needVsched = true
+	r.notes = append(r.notes, fmt.Sprintf("%s: blocking receive-only select modelled (vsched.SelectRecv)", r.fset.Position(st.Pos())))
+
+	return &ast.SwitchStmt{
+		Tag:  &ast.CallExpr{Fun: sel("vsched", "SelectRecv"), Args: chans},
+		Body: &ast.BlockStmt{List: clauses},
+	}
 }
 
 func (r *rewriter) rewriteGo(g *ast.GoStmt) ast.Stmt {
